@@ -192,23 +192,36 @@ Record cstate := {
   ccount : Z;            (* objectCounter *)
   cdepth : nat;          (* open sequences *)
   cdiscard : bool;       (* discardCount > 0: the rest of the current top-level object is being thrown away *)
-  cagree : bool          (* every OPEN so far got the number the sender wrote into it *)
+  cagree : bool;         (* every OPEN so far got the number the sender wrote into it *)
+  cdown : bool           (* an unslicer absorbed a violation and stayed on the stack: it is handed the tokens of whatever
+                            comes next and raises BananaError -- the connection is dropped *)
 }.
 
-Definition cinit (c : Z) : cstate := {| ccount := c; cdepth := 0; cdiscard := false; cagree := true |}.
+Definition cinit (c : Z) : cstate := {| ccount := c; cdepth := 0; cdiscard := false; cagree := true; cdown := false |}.
+
+(* a Violation raised by an unslicer inside a top-level sequence (depth > 0): when every PB unslicer gives its sequence up
+   (reportViolation returns the failure, read from the source) the rest of that top-level object is discarded; at depth 0
+   the rejected token concerns only itself *)
+Definition reject (c : cstate) (viol : bool) : bool :=
+  cdiscard c || (viol && match cdepth c with O => false | S _ => true end).
+
+Definition stuck (c : cstate) (viol : bool) : bool :=
+  cdown c || (viol && negb (cdiscard c) && match cdepth c with O => false | S _ => true end && negb pb_unslicers_propagate).
 
 Definition cstep (c : cstate) (tv : tok * bool) : cstate :=
   let '(t, viol) := tv in
   match t with
   | TOpen n =>
     let counted := negb (cdiscard c) || recv_counts_rejected_opens in
-    {| ccount := if counted then ccount c + 1 else ccount c; cdepth := S (cdepth c); cdiscard := cdiscard c || viol;
-       cagree := cagree c && (n =? ccount c) |}
+    {| ccount := if counted then ccount c + 1 else ccount c; cdepth := S (cdepth c);
+       cdiscard := cdiscard c || viol;      (* a rejected OPEN (inOpen) discards the sequence it opens *)
+       cagree := cagree c && (n =? ccount c); cdown := cdown c |}
   | TClose _ =>
     {| ccount := ccount c; cdepth := pred (cdepth c);
-       cdiscard := match cdepth c with S O | O => false | _ => cdiscard c || viol end; cagree := cagree c |}
-  | TAbort _ => {| ccount := ccount c; cdepth := cdepth c; cdiscard := true; cagree := cagree c |}
-  | TData _ => {| ccount := ccount c; cdepth := cdepth c; cdiscard := cdiscard c || viol; cagree := cagree c |}
+       cdiscard := match cdepth c with S O | O => false | _ => reject c viol end; cagree := cagree c; cdown := stuck c viol |}
+  | TAbort _ => {| ccount := ccount c; cdepth := cdepth c;
+                   cdiscard := match cdepth c with O => cdiscard c | S _ => true end; cagree := cagree c; cdown := cdown c |}
+  | TData _ => {| ccount := ccount c; cdepth := cdepth c; cdiscard := reject c viol; cagree := cagree c; cdown := stuck c viol |}
   end.
 
 Definition crun (c : cstate) (tvs : list (tok * bool)) : cstate := fold_left cstep tvs c.
@@ -220,3 +233,26 @@ Fixpoint next_open (c : Z) (ts : list tok) : option Z :=
   | TOpen n :: r => if n =? c then next_open (c + 1) r else None
   | _ :: r => next_open c r
   end.
+
+(* nesting depth after a token list *)
+Fixpoint dep (d : nat) (ts : list tok) : nat :=
+  match ts with
+  | [] => d
+  | TOpen _ :: r => dep (S d) r
+  | TClose _ :: r => dep (pred d) r
+  | _ :: r => dep d r
+  end.
+
+(* ---- the class object that CopiedFailure.setCopyableState puts into f.type: __module__ / __name__ are the transmitted
+   name split at its LAST dot; reflect.qual(f.type) joins them again.  Nothing else enters (no table that outlives the call) *)
+Fixpoint split_last (sep : Z) (t : list Z) : option (list Z * list Z) :=
+  match t with
+  | [] => None
+  | c :: r => match split_last sep r with
+              | Some (m, n) => Some (c :: m, n)
+              | None => if c =? sep then Some ([], r) else None
+              end
+  end.
+
+Definition requal (sep : Z) (t : list Z) : list Z :=
+  match split_last sep t with Some (m, n) => m ++ [sep] ++ n | None => [sep] ++ t end.   (* "".join([]) + "." + name *)
